@@ -204,7 +204,7 @@ class ExecHooks(Hooks):
 
 def Seq_rows(I, site, ncall):
     # rows of the last engine statement: [(count,)]
-    cnt = Sym(f"engine_count#{ncall}", typ="int", origin=("engine_count", ncall))
+    cnt = Sym(f"engine_count#{ncall}", typ="int", origin=("engine_count", ncall), notnone=True)
     return Lst([Tup([cnt])], open=True)
 
 
@@ -254,16 +254,23 @@ def run_kind(prog: Program, kind: str, mode: str | None, database_set=True, sche
     def run(I: Interp):
         duck, conn, cur = make_session(database_set, schema_set)
         stmt = descriptors()[kind]
-        info = {"transformed": None}
+        info = {"transformed": None, "rowcount": None}
         sessions.append((conn, cur, info))
         if prog.has_fn("checks", "is_unqualified_table_expression") and (no_db is not None):
             pass
         t = I.call(I.getattr(cur, "_transform"), [stmt], {}, None)
         info["transformed"] = t
         I.effect("transformed", t)
-        return I.call(I.getattr(cur, "_execute"), [t, Sym("params")], {}, None)
+        r = I.call(I.getattr(cur, "_execute"), [t, Sym("params")], {}, None)
+        try:
+            info["rowcount"] = I.getattr(cur, "rowcount")
+        except _Raise:
+            info["rowcount"] = None
+        return r
 
     paths = explore(prog, factory, run, max_paths=max_paths)
     for p, h, (conn, cur, info) in zip(paths, hooks_list, sessions):
-        traces.append(Trace(kind, mode, p, h, conn, cur, info["transformed"], (database_set, schema_set)))
+        tr = Trace(kind, mode, p, h, conn, cur, info["transformed"], (database_set, schema_set))
+        tr.public_rowcount = info["rowcount"]
+        traces.append(tr)
     return traces
